@@ -15,6 +15,13 @@
                    "s12"   subcode S1/S2 (+C4)      \
                    "s34"   subcode S3/S4 (+C5,C6)    > terminates the page of its magazine, opens nothing
                    "ctrl"  control bits C7..C14     /
+                   "htxt"  wrong parity in the header TEXT bytes of the columns cols (8..39; data, neither address
+                           nor control)             -> the header acts exactly like the intact one (terminates, opens
+                                                        the page; nothing else is dropped - the decoder's comparison of
+                                                        header texts that detects a channel switch must take a byte with
+                                                        a parity error as inconclusive); the header row of the version
+                                                        shows the transmitted character or a blank at these columns
+                                                        (hbad), never another character
        text row    "mrag"  magazine / packet address -> changes nothing
                    "par"   wrong parity in k of the 40 bytes (k = 1, 2, 3, 40; adjacent or scattered)
                                                      -> the row is not received: it keeps the stored content
@@ -74,7 +81,10 @@ BlankS == [r \in Rows |-> {0}]
 BASE == 99                             \* link value: the one of the stored version this transmission builds on
 Links == 1..6
 
-HF == {Ok} \cup {[f |-> x] : x \in HdrFaults}
+HdrTxtFaults == {}      \* records [f |-> "htxt", cols |-> set of columns 8..39]; a cfg overrides it (HdrTxtFaults <- ...)
+HF == {Ok} \cup {[f |-> x] : x \in HdrFaults} \cup HdrTxtFaults
+HdrOk(f) == f = Ok \/ f.f = "htxt"       \* address and control bytes of the header are intact
+HBad(f) == IF f = Ok THEN {} ELSE f.cols
 RF == {Ok} \cup RowFaults
 PF == {Ok} \cup {[f |-> x] : x \in PktFaults}
 LF == PF \cup FlofFaults
@@ -104,7 +114,7 @@ Merge(o) ==
                                ELSE IF <<r, o.pcol[r]>> \in Overridden(Trips(enh)) THEN kept(r) \cup {o.rows[r]}
                                ELSE kept(r)],
       links |-> [k \in Links |-> UNION {IF x = BASE THEN blink(k) ELSE {x} : x \in o.links[k]}],
-      enh  |-> enh]
+      enh  |-> enh, hbad |-> o.hbad]
 
 Terminate(m) ==
   IF open[m] = None THEN /\ UNCHANGED cache /\ term' = <<>>
@@ -117,9 +127,9 @@ Step(a) == /\ npk' = npk + 1 /\ lastAct' = a
            /\ flts' = IF a.flt = Ok THEN flts ELSE Append(flts, a.flt)
 MayFail(f) == f = Ok \/ Len(flts) < MaxFaults
 
-NewPage(pg, sub, erase, nat) ==
+NewPage(pg, sub, erase, nat, hbad) ==
   [pg |-> pg, sub |-> sub, erase |-> erase, nat |-> nat, rows |-> Blank, pcol |-> [r \in Rows |-> NoCol],
-   links |-> [k \in Links |-> {BASE}], enh |-> NoEnh, x26 |-> FALSE]
+   links |-> [k \in Links |-> {BASE}], enh |-> NoEnh, x26 |-> FALSE, hbad |-> hbad]
 
 \* page header of p/sub
 Header(p, sub, erase, nat, f) ==
@@ -129,7 +139,7 @@ Header(p, sub, erase, nat, f) ==
   /\ IF f.f = "page"
      THEN /\ open' = [x \in Mags |-> None] /\ term' = <<>> /\ UNCHANGED cache
      ELSE /\ Terminate(m)
-          /\ open' = [open EXCEPT ![m] = IF f = Ok THEN NewPage(pg, sub, erase, nat) ELSE None]
+          /\ open' = [open EXCEPT ![m] = IF HdrOk(f) THEN NewPage(pg, sub, erase, nat, HBad(f)) ELSE None]
   /\ lastm' = m /\ UNCHANGED mode
   /\ Step([a |-> "Header", pg |-> pg, sub |-> sub, erase |-> erase, nat |-> nat, flt |-> f])
 
@@ -204,9 +214,20 @@ Untouched(o, n) == n = o \/ (o # None /\ n = [o EXCEPT !.x26 = TRUE])
 AddressFaultNothing == [][lastAct'.flt.f \in {"mrag", "desig", "lcb"} =>
                              cache' = cache /\ \A m \in Mags : Untouched(open[m], open'[m])]_vars
 \* C03: an uncorrectable header opens nothing and stores at most the page it terminates
-HeaderFaultOnlyAbandons == [][lastAct'.a \in {"Header", "Filler"} /\ lastAct'.flt # Ok =>
+HeaderFaultOnlyAbandons == [][lastAct'.a \in {"Header", "Filler"} /\ ~HdrOk(lastAct'.flt) =>
                                  /\ \A m \in Mags : open'[m] \in {None, open[m]}
                                  /\ cache' \subseteq cache \cup {term'[i] : i \in 1..Len(term')}]_vars
+\* C03: a header whose TEXT has a parity error is contained: it terminates and opens what the intact header does, no other stored
+\* page is dropped, no other magazine is touched; the damaged columns are remembered for the header row of the version
+HeaderTextContained ==
+  [][(lastAct'.a \in {"Header", "Filler"} /\ lastAct'.flt.f = "htxt") =>
+       LET m == lastm' IN
+       /\ \A c \in cache : c \in cache' \/ \E i \in 1..Len(term') : term'[i].pg = c.pg /\ (Rolling(term'[i].sub) \/ term'[i].sub = c.sub)
+       /\ \A x \in Mags \ {m} : open'[x] = open[x]
+       /\ open[m] # None => (Len(term') = 1 /\ term'[1] \in cache' /\ term'[1].pg = open[m].pg /\ term'[1].sub = open[m].sub)
+       /\ lastAct'.a = "Header" => /\ open'[m] # None /\ open'[m].pg = lastAct'.pg /\ open'[m].sub = lastAct'.sub
+                                   /\ open'[m].hbad = lastAct'.flt.cols]_vars
+HdrTextOnly == \A c \in cache : c.hbad \subseteq 8..39
 \* C03: a row with a parity error never adds or changes content of the page in transmission (a single damaged byte
 \* leaves the decision to the termination: ParityErrorContained)
 BadRowContained == [][lastAct'.a = "Row" /\ lastAct'.flt # Ok /\ lastAct'.flt.f # "parc" => \A m \in Mags : open[m] # None =>
